@@ -50,6 +50,7 @@ type serverHandshakeState struct {
 	masterSecret    []byte
 	certsFromClient [][]byte
 	cert            *Certificate
+	nextProtos      []string // application protocols enabled for this connection
 }
 
 // serverHandshake performs a TLS handshake as a server.
@@ -255,6 +256,7 @@ Curves:
 		nextProtos = rule.NextProtos.Get(c)
 	}
 
+	hs.nextProtos = nextProtos
 	if len(hs.clientHello.alpnProtocols) > 0 {
 		if selectedProto, fallback := mutualProtocol(hs.clientHello.alpnProtocols, nextProtos); !fallback {
 			hs.hello.alpnProtocol = selectedProto
@@ -441,8 +443,17 @@ func (hs *serverHandshakeState) validateHttp2Accepted() {
 	c := hs.c
 	if hs.hello.alpnProtocol == "h2" {
 		if !checkCipherSuiteHttp2Accepted(hs.suite.id) || c.vers < VersionTLS12 {
-			hs.hello.alpnProtocol = "http/1.1"
-			c.clientProtocol = "http/1.1"
+			// fall back to the best protocol other than h2 that both sides offered;
+			// if there is none, do not answer the ALPN extension at all.
+			proto := ""
+			clientProtos := checkAndRemoveH2(hs.clientHello.alpnProtocols)
+			if len(clientProtos) > 0 {
+				if p, fallback := mutualProtocol(clientProtos, checkAndRemoveH2(hs.nextProtos)); !fallback {
+					proto = p
+				}
+			}
+			hs.hello.alpnProtocol = proto
+			c.clientProtocol = proto
 		}
 	}
 }
